@@ -379,9 +379,6 @@ def gen_injections(r, sh, helper, next_id, thorough):
                     elif step == "dup2":
                         streams = [0, 1, 2]
                         r.shuffle(streams)
-                        for s in range(3):
-                            if c["io"][s] in (None, "i"):
-                                continue
                         have = n_fd_streams(c)
                         for s in streams:
                             if len(have) > k:
@@ -435,7 +432,7 @@ def run_shard(sh, sysmon, timeout_s):
     exe = sh.flavour["exe"]
     syslog.write_spec(spec, exe, [os.fsencode(exe), os.fsencode(casefile)], sh.probe_env)
     log = os.path.join(sh.dir, "log")
-    cmd = syslog.sysmon_cmd(log, [exe, casefile], timeout_s=timeout_s, idle_ms=0, scope_markers=True,
+    cmd = syslog.sysmon_cmd(log, [exe, casefile], timeout_s=timeout_s, idle_ms=0, scope_markers=False,
                             spec=spec, sysmon=sysmon)
     t0 = time.time()
     with open(os.path.join(sh.dir, "stdin.empty"), "rb") as fin:
@@ -498,6 +495,7 @@ def digest(evs):
         return base, cases, None, None
     cur = None
     owner = {}      # pid -> CaseObs of the fork that created it
+    pending = {}    # pid -> events logged for a process whose fork event has not been seen yet
     root_exit = None
     for e in evs:
         tg = getattr(e, "tgid", None)
@@ -524,6 +522,18 @@ def digest(evs):
                     ch = dict(ev=[], exec_seq=None, exit=None, fork_seq=e.seq, sig=[])
                     cur.children[e.new] = ch
                     owner[e.new] = cur
+                    # the tracer may see the first stops of the new process before the parent's fork event:
+                    # what it logged for that pid until now belongs to this child
+                    for pe in pending.pop(e.new, []):
+                        ch["ev"].append(pe)
+                        cur.order.append(pe)
+                        if pe.k == "E" and ch["exec_seq"] is None:
+                            ch["exec_seq"] = pe.seq
+                        elif pe.k == "X" and pe.tid == e.new:
+                            ch["exit"] = pe.status
+                            ch["exit_seq"] = pe.seq
+                            del owner[e.new]
+                    ch["early"] = bool(ch["ev"])
                 if e.k == "M" and e.kind == 2 and e.a[0] == 13:
                     cur.end = e.seq
                     cur = None
@@ -542,6 +552,11 @@ def digest(evs):
                 # a grandchild: would be a process nobody asked for; keep it attached to the same case
                 co.children.setdefault(e.new, dict(ev=[], exec_seq=None, exit=None, fork_seq=e.seq, sig=[], grand=True))
                 owner[e.new] = co
+        elif tg is not None and cur is not None and e.k in ("N", "S", "s", "M", "E", "X", "G"):
+            if e.k == "N":
+                pending[tg] = [e]
+            elif tg in pending:
+                pending[tg].append(e)
     return base, cases, root, root_exit
 
 
@@ -610,7 +625,7 @@ class Judge:
     def viol(self, sig, c, co, what, **extra):
         det = dict(flavour=self.fl, what=what, case=case_line(c), case_kind=c["kind"], note=c["note"],
                    replay_case=ser_case(c, self.sh), probe_env=[hx(e) for e in self.sh.probe_env],
-                   log=[fmt_ev(e) for e in co.order if e.k != "s"][:120] if co else [])
+                   log=[fmt_ev(e) for e in sorted(co.order, key=lambda e: e.seq) if e.k != "s"][:120] if co else [])
         det.update(extra)
         self.ck.violation(sig, det)
         self.ck.count("violating_observations")
@@ -638,6 +653,8 @@ class Judge:
             if e.k == "S" and e.seq < ret_seq and e.nr in PARENT_STEP_NR and e.ret < 0:
                 fails.append((e.seq, "parent", PARENT_STEP_NR[e.nr], "", -e.ret, e.inj))
         kids = [(pid, ch) for pid, ch in co.children.items() if ch["fork_seq"] < ret_seq]
+        if any(ch.get("early") for _, ch in kids):
+            ck.count("child_seen_by_tracer_before_fork_event")
         for pid, ch in kids:
             ndup = 0
             for e in ch["ev"]:
@@ -1051,37 +1068,34 @@ def _run(ck, quick, sysmon, helper_src, flavours, root, replay):
                     sh.cases.append(c)
                 shards.append(sh)
             # fault shards: real failures + injections (thorough: all positions x errnos, quick: all positions)
-            if heavy or True:
-                faults = []
-                sh = Shard(root, fl, idx)
+            sh = Shard(root, fl, idx)
+            idx += 1
+            sh.probe_env = probe_env_for(r)
+            sh.cases += gen_real_failures(r, sh, helper_b, next_id, not quick)
+            shards.append(sh)
+            first = Shard(root, fl, idx)
+            idx += 1
+            first.probe_env = probe_env_for(r)
+            inj = gen_injections(r, first, helper_b, next_id, (not quick) and heavy)
+            # spread the injections over several probe processes
+            chunk = 45
+            for i in range(0, len(inj), chunk):
+                if i == 0:
+                    first.cases = inj[:chunk]
+                    shards.append(first)
+                    continue
+                sh2 = Shard(root, fl, idx)
                 idx += 1
-                sh.probe_env = probe_env_for(r)
-                sh.cases += gen_real_failures(r, sh, helper_b, next_id, not quick)
-                shards.append(sh)
-                sh = Shard(root, fl, idx)
-                idx += 1
-                sh.probe_env = probe_env_for(r)
-                inj = gen_injections(r, sh, helper_b, next_id, (not quick) and heavy)
-                # spread injections over several shards
-                chunk = 45
-                for i in range(0, len(inj), chunk):
-                    if i > 0:
-                        sh2 = Shard(root, fl, idx)
-                        idx += 1
-                        sh2.probe_env = probe_env_for(r)
-                        # links were created in the first shard's directory: re-home the cases
-                        for c in inj[i:i + chunk]:
-                            rehome(c, sh, sh2)
-                        sh2.cases = inj[i:i + chunk]
-                        shards.append(sh2)
-                    else:
-                        sh.cases = inj[:chunk]
-                        shards.append(sh)
+                sh2.probe_env = probe_env_for(r)
+                for c in inj[i:i + chunk]:
+                    rehome(c, first, sh2)   # links were created in the first shard's directory
+                sh2.cases = inj[i:i + chunk]
+                shards.append(sh2)
         for sh in shards:
             for c in sh.cases:
                 materialize(c, sh)
 
-    timeout_s = 60 if quick else 600
+    timeout_s = 45 if quick else 600
     with concurrent.futures.ThreadPoolExecutor(max_workers=vlib.NCPU) as ex:
         list(ex.map(lambda s: run_shard(s, sysmon, timeout_s), shards))
 
